@@ -4,5 +4,6 @@ DevNone == {}
 DevPinned == {"DpdCacheAliasing"}
 DevNoReset == {"NoReset"}
 DevResetAtEnd == {"ResetAtEnd"}
+DevSharedNameMap == {"SharedNameMap"}
 \* bound the configuration space explored exhaustively: at most one builder has assigned dynamics
 =============================================================================
